@@ -1626,6 +1626,20 @@ func (fr *Frame) enterLoop(li *loopInfo, pre *State, phis []*ssa.Phi, phiEntry m
 	vc := fr.vc
 	vc.nondet = true
 	li.preState = pre.clone()
+	if vc.ctx.firstIter {
+		// Under-approximation (used when a contract no longer fits its function): no invariant,
+		// no havoc - the loop is entered in the state that reaches it, its body is encoded once
+		// and every path is cut at the back edge. What remains are real paths: those that leave
+		// each loop before completing an iteration (exit at the first test, break, return).
+		hs := pre.clone()
+		li.phiHavoc = map[*ssa.Phi]Term{}
+		for _, phi := range phis {
+			fr.vals[phi] = phiEntry[phi]
+			li.phiHavoc[phi] = phiEntry[phi]
+		}
+		li.hdrState = hs
+		return nil
+	}
 	if li.spec == nil {
 		vc.note("%s: loop %d of %s has no invariant (true assumed)", fr.pos(li.header.Instrs[0].Pos()), li.ordinal, fr.fn.Name())
 	}
@@ -1858,6 +1872,9 @@ func (fr *Frame) loopBackEdge(li *loopInfo, from *ssa.BasicBlock, st *State) err
 	if li == nil {
 		return fmt.Errorf("back edge to a block that is not a loop header")
 	}
+	if vc.ctx.firstIter {
+		return nil // the path ends here (under-approximation, see enterLoop)
+	}
 	phiBack := map[*ssa.Phi]Term{}
 	for _, in := range li.header.Instrs {
 		phi, ok := in.(*ssa.Phi)
@@ -1986,6 +2003,7 @@ func (fr *Frame) loopEnv(li *loopInfo, st *State, phiVals map[*ssa.Phi]Term) *Sp
 		}
 		return SpecVal{}, false
 	}
+	env.loopPre = li.preState
 	env.shadow = phiLookup
 	env.shadowable = map[string]SpecVal{}
 	for k, v := range env.vars {
